@@ -9,6 +9,7 @@ import Driver.GcCmd
 import Driver.FlagCmd
 import Driver.CliCmd
 import Driver.SemCmd
+import Driver.ScopeCmd
 /-!
 # Line-protocol driver over the executable models
 
@@ -35,6 +36,7 @@ def step (s : DState) (line : String) : DState × String :=
   | ["flag", n, o] => (s, flagLine n o)
   | ["cli", c, a, e] => (s, cliLine c a e)
   | ["sem", p, e, a] => (s, semLine p e a)
+  | "scope" :: toks => (s, scopeLine toks)
   | _ => (s, "bad-op")
 
 partial def loop (h : IO.FS.Stream) (out : IO.FS.Stream) (s : DState) : IO Unit := do
